@@ -25,8 +25,11 @@ func init() {
 			"&DummyDropRules or a value established non-nil by a branch on that path: an active profile is never announced with nil rules and the only substitute is the deny stand-in. (replace) Every write to the " +
 			"profile-rules cache (Set or Delete on allProfileRules) is followed on every returning path by a re-announcement of the profile to the rule scanner unless the profile is inactive " +
 			"(profileIDToEndpointKeys.ContainsKey false): a late profile replaces the deny, a deleted one falls back to it. (validnil) In ValidationFilter.OnUpdates every call that returns an error is checked, and every " +
-			"path from its non-nil edge to the store of the update into the outgoing slice stores nil into the update's Value first, and that outgoing slice (not the incoming one) is what the sink receives. (nomutate) ValidationFilter writes only to its own locals and receiver: a value that is kept is passed through unmodified, never partially applied.",
-		NotDecided: "That downstream renderers treat the deny stand-in as deny (C08/C09); that the validators reject every invalid resource; mutation of DummyDropRules through the pointer handed to the rule scanner; that consumers of Value==nil treat it as deletion (C01.nilnotype covers the UpdateType side).",
+			"path from its non-nil edge to the store of the update into the outgoing slice stores nil into the update's Value first, and that outgoing slice (not the incoming one) is what the sink receives. (nomutate) ValidationFilter writes only to its own locals and receiver: a value that is kept is passed through unmodified, never partially applied. " +
+			"(relay) On the Typha path to Felix, every function of typha/pkg/syncproto that converts between api.Update and SerializedUpdate and can fail returns a non-nil error only for a failed key conversion " +
+			"(model.KeyFromDefaultPath nil / model.KeyToDefaultPath error): the callers (snapshot cache, sync client) drop an update whose conversion fails, which would leave the previous version of the resource in force, " +
+			"so a value that cannot be parsed or serialized must still produce an update for its key.",
+		NotDecided: "That downstream renderers treat the deny stand-in as deny (C08/C09); that the validators reject every invalid resource; mutation of DummyDropRules through the pointer handed to the rule scanner; that consumers of Value==nil treat it as deletion (C01.nilnotype covers the UpdateType side); that model.ParseValue returns a nil value together with its error (relay decides only that the update is not dropped).",
 		Assumptions: []string{
 			"go/types + go/ssa (x/tools v0.50.0) model of the current source, CGO_ENABLED=0 build",
 			"model.Rule.Action \"deny\" is the deny verdict of the policy model (API contract)",
@@ -58,23 +61,32 @@ func init() {
 				Old: "\t\t\t\terr := v.validateWorkloadEndpoint(value)\n\t\t\t\tif err != nil {\n", New: "\t\t\t\terr := v.validateWorkloadEndpoint(value)\n\t\t\t\tif err != nil && value.Name != \"\" {\n", Expect: "C05.validnil/validateWorkloadEndpoint"},
 			{Name: "filter repairs an invalid endpoint instead of dropping it", File: "felix/calc/validation_filter.go",
 				Old: "\tif len(value.AllowSpoofedSourcePrefixes) > 0 && v.config.WorkloadSourceSpoofing != \"Any\" {\n\t\treturn errors.New(\"source IP spoofing requested but not enabled in Felix configuration\")\n\t}\n", New: "\tif len(value.AllowSpoofedSourcePrefixes) > 0 && v.config.WorkloadSourceSpoofing != \"Any\" {\n\t\tvalue.AllowSpoofedSourcePrefixes = nil\n\t}\n", Expect: "C05.nomutate/ValidationFilter.validateWorkloadEndpoint"},
+			{Name: "decoder drops an update whose value cannot be parsed", File: "typha/pkg/syncproto/sync_proto.go",
+				Old: "\t\t} else {\n\t\t\tif obj, ok := parsedValue.(v1.Object); ok {", New: "\t\t\treturn api.Update{}, err\n\t\t} else {\n\t\t\tif obj, ok := parsedValue.(v1.Object); ok {", Expect: "C05.relay/SerializedUpdate.ToUpdate"},
+			{Name: "serializer reports an unserializable value instead of simulating a deletion", File: "typha/pkg/syncproto/sync_proto.go",
+				Old: "\t\terr = nil\n\t\treturn\n", New: "\t\treturn\n", Expect: "C05.relay/SerializeUpdate"},
 		},
 	})
 }
 
+const c05ProtoPkg = "typha/pkg/syncproto"
+
 func runC05(c *Ctx) {
-	p := c.Load(calcPkg)
+	p := c.Load(calcPkg, c05ProtoPkg)
 	c.Rule("C05.dummy", "E-CONST/E-OWN", "DummyDropRules: every []model.Rule field of model.ProfileRules is present, non-empty, each element exactly {Action: \"deny\"}; no store through the variable in felix/calc", 3)
 	c.Rule("C05.nonnil", "E-FLOW", "every rules argument of ruleScanner.OnProfileActive is, per incoming path, &DummyDropRules or guarded non-nil", 2)
 	c.Rule("C05.replace", "E-PAIR", "every Set/Delete on ActiveRulesCalculator.allProfileRules is followed on every returning path by a call that announces the profile to the rule scanner, unless profileIDToEndpointKeys.ContainsKey is false", 2)
 	c.Rule("C05.validnil", "E-ERR", "in ValidationFilter.OnUpdates every error-returning call is tested against nil and every path from the non-nil edge to the store into the outgoing []api.Update passes a store of nil into update.Value; the slice forwarded to the sink is that outgoing slice", 3)
 	c.Rule("C05.nomutate", "E-OWN", "methods of ValidationFilter store only through locals (alloc/make) and the receiver; never through a datastore value they were handed", 3)
 
+	c.Rule("C05.relay", "E-ERR (forward dataflow over the error result)", "a Typha (de)serializer of updates returns a non-nil error only when the KEY conversion failed; a value that cannot be (de)serialized still yields an update for its key (nil value = absent), because the callers drop an update on error", 2)
+
 	dummy := c05Dummy(c, p)
 	c05NonNil(c, p, dummy)
 	c05Replace(c, p)
 	c05ValidNil(c, p)
 	c05NoMutate(c, p)
+	c05Relay(c, p)
 }
 
 // ------------------------------------------------------------------ dummy --
@@ -710,4 +722,363 @@ func c05NoMutate(c *Ctx, p *Prog) {
 			"writes only to locals and the receiver",
 			fmt.Sprintf("%s modifies a value it was handed: %v — the filter must pass a resource through unchanged or replace it by nil, never partially apply it", fnName(mth), bad))
 	}
+}
+
+// ------------------------------------------------------------------ relay --
+
+// c05Relay: the converters between api.Update and syncproto.SerializedUpdate.
+// Their callers skip an update when the conversion returns an error, so an error
+// is only acceptable when the key itself is unusable; a value problem must
+// surface as an update for that key (with a nil value), never as a drop.
+//
+// Decided by a forward dataflow over each converter that tracks what the error
+// result may hold (nil / the key conversion's error / any other error) through
+// registers, phis and error-typed locals (named results), refined by `== nil`
+// branches.  A return whose error may be an "other" error must lie behind the
+// key-conversion-failed edge on every path.
+func c05Relay(c *Ctx, p *Prog) {
+	const modelPkg = "libcalico-go/lib/backend/model"
+	sp := p.SSAPkg(c05ProtoPkg)
+	if sp == nil {
+		c.Lost("package %s", c05ProtoPkg)
+	}
+	keyFns := map[*types.Func]bool{}
+	for _, n := range []string{"KeyFromDefaultPath", "KeyToDefaultPath"} {
+		f, _ := p.LookupExt(modelPkg, n).(*types.Func)
+		if f == nil {
+			c.Lost("model.%s", n)
+		}
+		keyFns[f] = true
+	}
+	errT := types.Universe.Lookup("error").Type()
+	isConv := func(f *ssa.Function) bool {
+		res := f.Signature.Results()
+		if res.Len() != 2 || !types.Identical(res.At(1).Type(), errT) {
+			return false
+		}
+		switch qualTypeName(res.At(0).Type()) {
+		case "libcalico-go/lib/backend/api.Update", c05ProtoPkg + ".SerializedUpdate":
+			return true
+		}
+		return false
+	}
+	var convs []*ssa.Function
+	for _, f := range p.AllFuncs() {
+		if f.Pkg == sp && f.Parent() == nil && f.Blocks != nil && f.Synthetic == "" && isConv(f) {
+			convs = append(convs, f)
+		}
+	}
+	sort.Slice(convs, func(i, j int) bool { return fnName(convs[i]) < fnName(convs[j]) })
+	if len(convs) == 0 {
+		c.Lost("no function of %s returns (api.Update, error) or (SerializedUpdate, error)", c05ProtoPkg)
+	}
+	for _, f := range convs {
+		c05RelayFn(c, p, f, keyFns)
+	}
+}
+
+const (
+	c05Nil   = 1 // nil
+	c05Key   = 2 // the error of the key conversion
+	c05Other = 4 // any other error
+)
+
+type c05ErrState struct {
+	alloc   map[*ssa.Alloc]uint8 // error-typed locals
+	nilRegs map[ssa.Value]bool   // registers known nil on every path here
+}
+
+func (s *c05ErrState) clone() *c05ErrState {
+	n := &c05ErrState{alloc: map[*ssa.Alloc]uint8{}, nilRegs: map[ssa.Value]bool{}}
+	for k, v := range s.alloc {
+		n.alloc[k] = v
+	}
+	for k := range s.nilRegs {
+		n.nilRegs[k] = true
+	}
+	return n
+}
+
+// join merges o into s; reports whether s changed.
+func (s *c05ErrState) join(o *c05ErrState) bool {
+	ch := false
+	for k, v := range o.alloc {
+		if s.alloc[k]|v != s.alloc[k] {
+			s.alloc[k] |= v
+			ch = true
+		}
+	}
+	for k := range s.nilRegs {
+		if !o.nilRegs[k] {
+			delete(s.nilRegs, k)
+			ch = true
+		}
+	}
+	return ch
+}
+
+func c05RelayFn(c *Ctx, p *Prog, f *ssa.Function, keyFns map[*types.Func]bool) {
+	key := "C05.relay/" + fnName(f)
+	site := p.Pos(f.Pos())
+	errT := types.Universe.Lookup("error").Type()
+	// the key conversion(s)
+	var keyCalls []*ssa.Call
+	allInstrs(f, false, func(_ *ssa.Function, in ssa.Instruction) {
+		if ci, ok := in.(*ssa.Call); ok {
+			if fo := calleeOf(ci.Common()); fo != nil && keyFns[fo] {
+				keyCalls = append(keyCalls, ci)
+			}
+		}
+	})
+	if len(keyCalls) == 0 {
+		c.Lost("%s: no call of model.KeyFromDefaultPath / KeyToDefaultPath (the key conversion)", fnName(f))
+	}
+	isKeyCall := func(v ssa.Value) bool {
+		for _, k := range keyCalls {
+			if v == ssa.Value(k) {
+				return true
+			}
+		}
+		return false
+	}
+	// error of the key conversion: the call itself (single error result) or the error component of its tuple
+	isKeyErr := func(v ssa.Value) bool {
+		if isKeyCall(v) && types.Identical(v.Type(), errT) {
+			return true
+		}
+		ex, ok := v.(*ssa.Extract)
+		return ok && isKeyCall(ex.Tuple) && types.Identical(ex.Type(), errT)
+	}
+	// key conversion failed: its (non-error) result is nil, or its error is non-nil
+	keyFailed := anyOf(
+		c25NilCond(true, func(v ssa.Value) bool {
+			if isKeyErr(v) {
+				return false
+			}
+			if isKeyCall(v) {
+				return true
+			}
+			ex, ok := v.(*ssa.Extract)
+			return ok && isKeyCall(ex.Tuple)
+		}),
+		c25NilCond(false, isKeyErr))
+
+	// tracked error locals: only stored to and loaded from
+	tracked := map[*ssa.Alloc]bool{}
+	untracked := map[*ssa.Alloc]bool{}
+	allInstrs(f, false, func(_ *ssa.Function, in ssa.Instruction) {
+		al, ok := in.(*ssa.Alloc)
+		if !ok || !types.Identical(al.Type().(*types.Pointer).Elem(), errT) {
+			return
+		}
+		simple := true
+		if refs := al.Referrers(); refs != nil {
+			for _, r := range *refs {
+				switch x := r.(type) {
+				case *ssa.Store:
+					if x.Addr != ssa.Value(al) {
+						simple = false
+					}
+				case *ssa.UnOp:
+					if x.Op != token.MUL {
+						simple = false
+					}
+				case *ssa.DebugRef:
+				default:
+					simple = false
+				}
+			}
+		}
+		if simple {
+			tracked[al] = true
+		} else {
+			untracked[al] = true
+		}
+	})
+	loadOf := func(v ssa.Value) *ssa.Alloc {
+		if u, ok := v.(*ssa.UnOp); ok && u.Op == token.MUL {
+			if al, ok := u.X.(*ssa.Alloc); ok && tracked[al] {
+				return al
+			}
+		}
+		return nil
+	}
+	// Loads of tracked locals are treated as registers whose value is what the
+	// local held when the load executed (loadVal); a phi takes each operand with
+	// the facts that held on the corresponding incoming edge (edgeSt).
+	loadVal := map[ssa.Value]uint8{}
+	type edge struct{ from, to *ssa.BasicBlock }
+	edgeSt := map[edge]*c05ErrState{}
+	var eval func(v ssa.Value, st *c05ErrState, seen map[ssa.Value]bool) uint8
+	eval = func(v ssa.Value, st *c05ErrState, seen map[ssa.Value]bool) uint8 {
+		if isNilConst(v) || st.nilRegs[v] {
+			return c05Nil
+		}
+		if isKeyErr(v) {
+			return c05Key | c05Nil
+		}
+		if al := loadOf(v); al != nil {
+			return loadVal[v]
+		}
+		if phi, ok := v.(*ssa.Phi); ok {
+			if seen[v] {
+				return 0
+			}
+			seen[v] = true
+			var m uint8
+			for i, e := range phi.Edges {
+				if es := edgeSt[edge{phi.Block().Preds[i], phi.Block()}]; es != nil {
+					m |= eval(e, es, seen)
+				}
+			}
+			return m
+		}
+		return c05Other | c05Nil
+	}
+
+	init := &c05ErrState{alloc: map[*ssa.Alloc]uint8{}, nilRegs: map[ssa.Value]bool{}}
+	for al := range tracked {
+		init.alloc[al] = c05Nil
+	}
+	in := map[*ssa.BasicBlock]*c05ErrState{f.Blocks[0]: init}
+	type retInfo struct {
+		mask uint8
+		src  ssa.Value
+	}
+	rets := map[*ssa.Return]*retInfo{}
+	// transfer runs block b from state st (modified in place) and returns, per
+	// successor index, the state on that edge (nil = infeasible edge).
+	transfer := func(b *ssa.BasicBlock, st *c05ErrState, final bool) []*c05ErrState {
+		lastStore := map[*ssa.Alloc]int{} // index of the last store to each local in this block
+		for i, ins := range b.Instrs {
+			switch x := ins.(type) {
+			case *ssa.UnOp:
+				if al := loadOf(x); al != nil {
+					loadVal[x] |= st.alloc[al]
+				}
+			case *ssa.Store:
+				if al, ok := x.Addr.(*ssa.Alloc); ok && tracked[al] {
+					st.alloc[al] = eval(x.Val, st, map[ssa.Value]bool{})
+					lastStore[al] = i
+				}
+			case *ssa.Return:
+				if final && len(x.Results) == 2 {
+					rets[x] = &retInfo{mask: eval(x.Results[1], st, map[ssa.Value]bool{}), src: x.Results[1]}
+				}
+			}
+		}
+		if isPanicBlock(b) {
+			return nil
+		}
+		outs := make([]*c05ErrState, len(b.Succs))
+		ifi, isIf := b.Instrs[len(b.Instrs)-1].(*ssa.If)
+		for k := range b.Succs {
+			out := st.clone()
+			outs[k] = out
+			if !isIf || len(b.Succs) != 2 || b.Succs[0] == b.Succs[1] {
+				continue
+			}
+			cnd, pol := stripNot(ifi.Cond, k == 0)
+			bo, ok := cnd.(*ssa.BinOp)
+			if !ok || (bo.Op != token.EQL && bo.Op != token.NEQ) {
+				continue
+			}
+			var x ssa.Value
+			if isNilConst(bo.Y) {
+				x = bo.X
+			} else if isNilConst(bo.X) {
+				x = bo.Y
+			}
+			if x == nil || !types.Identical(x.Type(), errT) {
+				continue
+			}
+			isNilEdge := pol == (bo.Op == token.EQL)
+			if !isNilEdge && eval(x, st, map[ssa.Value]bool{}) == c05Nil {
+				outs[k] = nil // infeasible edge
+				continue
+			}
+			if isNilEdge {
+				out.nilRegs[x] = true
+			}
+			if al := loadOf(x); al != nil {
+				// refine the local too if the load is still current: same block, no store to the local after it
+				ld := x.(*ssa.UnOp)
+				if ls, stored := lastStore[al]; ld.Block() == b && (!stored || ls < instrIndex(ld)) {
+					if isNilEdge {
+						out.alloc[al] = c05Nil
+					} else if out.alloc[al]&^c05Nil != 0 {
+						out.alloc[al] &^= c05Nil
+					}
+				}
+			}
+		}
+		return outs
+	}
+	work := []*ssa.BasicBlock{f.Blocks[0]}
+	for n := 0; len(work) > 0; n++ {
+		if n > 100000 {
+			c.Undecided(key, site, "dataflow did not converge")
+			return
+		}
+		b := work[len(work)-1]
+		work = work[:len(work)-1]
+		outs := transfer(b, in[b].clone(), false)
+		for k, succ := range b.Succs {
+			if outs == nil || outs[k] == nil {
+				continue
+			}
+			// the edge state only ever weakens (join with what was seen before)
+			e := edge{b, succ}
+			chg := false
+			if es := edgeSt[e]; es == nil {
+				edgeSt[e] = outs[k].clone()
+				chg = true
+			} else {
+				chg = es.join(outs[k])
+			}
+			if cur := in[succ]; cur == nil {
+				in[succ] = outs[k].clone()
+				chg = true
+			} else if cur.join(outs[k]) {
+				chg = true
+			}
+			if chg {
+				work = append(work, succ)
+			}
+		}
+	}
+	// final sweep over the reached blocks with the converged states
+	for _, b := range f.Blocks {
+		if st := in[b]; st != nil {
+			transfer(b, st.clone(), true)
+		}
+	}
+	if len(rets) == 0 {
+		c.Lost("%s: no reachable return", fnName(f))
+	}
+	var bad []string
+	und := ""
+	for r, ri := range rets {
+		if u, ok := ri.src.(*ssa.UnOp); ok && u.Op == token.MUL {
+			if al, ok := u.X.(*ssa.Alloc); ok && untracked[al] {
+				und = "the error returned at " + p.Pos(r.Pos()) + " is a local whose address escapes"
+			}
+		}
+		if ri.mask&c05Other == 0 {
+			continue
+		}
+		if guardedCut(r, keyFailed) {
+			continue
+		}
+		bad = append(bad, p.Pos(r.Pos()))
+	}
+	sort.Strings(bad)
+	if und != "" && len(bad) == 0 {
+		c.Undecided(key, site, "%s", und)
+		return
+	}
+	c.Check(len(bad) == 0, key, site,
+		fmt.Sprintf("%d return(s): a non-nil error is returned only when the key conversion failed", len(rets)),
+		fmt.Sprintf("%s can return a non-nil error at %v although the key was converted (the error does not come from the key conversion and the return is not behind its failure): "+
+			"the callers drop an update whose conversion fails, so a resource whose VALUE cannot be (de)serialized keeps its previous, stale version downstream instead of being treated as absent (update for the key with a nil value)", fnName(f), bad))
 }
